@@ -1,6 +1,7 @@
 package c08
 
 import (
+	"bytes"
 	"fmt"
 	"io"
 	"log"
@@ -72,6 +73,7 @@ func TestC08Quarantine(t *testing.T) {
 		defer w.Close()
 		h := lstore.NewHist(t, w, c, lstore.HistOpts{Holds: false, Syncers: persistent})
 		detections, midBlock, inflightIntoQuarantined, newerChecked, olderChecked, overlapChecked, duringRotation := 0, 0, 0, 0, 0, 0, 0
+		rangedDetected, rangedUndetected := 0, 0
 
 		corruptAndDetect := func(t *rapid.T) {
 			// No existence check may be parked in a refresh copy across the
@@ -303,6 +305,34 @@ func TestC08Quarantine(t *testing.T) {
 					w.History = append(w.History, fmt.Sprintf("  held read of object %d consumed (during rotation=%v) -> %v", victim.o.ID, fired, rawErr))
 					r = lstore.ReadResult{Err: rawErr, NotFound: status.Code(rawErr) == codes.NotFound}
 				}
+			} else if !cfg.Mutable && victim.o.Data != nil && len(victim.o.Data) > 1 && rapid.IntRange(0, 2).Draw(t, "rangedRead") == 0 {
+				// A ranged read (ReadAt of a part of the object that ends
+				// before its end) comes first. It either fails - then it is
+				// the detecting read - or it hands out exactly the stored
+				// bytes of its range... which must then be the ORIGINAL
+				// bytes: altered bytes returned without an error mean that
+				// a read of data that no longer matches its digest completed.
+				size := len(victim.o.Data)
+				off := rapid.IntRange(0, size-1).Draw(t, "rrOff")
+				n := rapid.IntRange(1, size-off).Draw(t, "rrLen")
+				if off+n == size && n > 1 {
+					n--
+				}
+				c.Add("rangedRead", off, n)
+				b := w.St.BA.Get(w.Ctx, victim.o.Digest(victim.inst))
+				buf := make([]byte, n)
+				k, rerr := b.ReadAt(buf, int64(off))
+				w.History = append(w.History, fmt.Sprintf("  ranged read of object %d: ReadAt(off=%d, len=%d) -> %d bytes, %v", victim.o.ID, off, n, k, rerr))
+				if rerr == nil || (rerr == io.EOF && k > 0) {
+					if !bytes.Equal(buf[:k], victim.o.Data[off:off+k]) {
+						t.Fatalf("C08: a ranged read (ReadAt off=%d len=%d) of corrupted object %d completed without an error and returned altered bytes %x, uploaded were %x\n%s", off, n, victim.o.ID, buf[:k], victim.o.Data[off:off+k], w.Render())
+					}
+					rangedUndetected++
+					r = w.Get(victim.o, victim.inst)
+				} else {
+					rangedDetected++
+					r = lstore.ReadResult{Err: rerr, NotFound: status.Code(rerr) == codes.NotFound}
+				}
 			} else {
 				r = w.Get(victim.o, victim.inst)
 			}
@@ -477,6 +507,8 @@ func TestC08Quarantine(t *testing.T) {
 
 		c.ClassIf(detections > 0, "corruption_detected")
 		c.ClassIf(detections > 1, "several_corruptions")
+		c.ClassIf(rangedDetected > 0, "corruption_detected_by_a_ranged_read")
+		c.ClassIf(rangedUndetected > 0, "ranged_read_completed_with_the_original_bytes_counted")
 		c.ClassIf(midBlock > 0, "corrupted_block_neither_oldest_nor_newest")
 		c.ClassIf(inflightIntoQuarantined > 0, "upload_in_flight_into_quarantined_block")
 		c.ClassIf(newerChecked > 0, "newer_objects_checked")
